@@ -87,18 +87,22 @@ def cancel (s : AState) (k : Nat) (current : Option Nat) : AState :=
         if current == some k then { t with pendingCancel := true }
         else { t with phase := .cancelled })
 
+/-- a suspended user coroutine that gets cancelled from outside: one `cancelRun` event (the
+    CancelledError surfaces at its await; the attempt is not counted) -/
+def logCancel (s : AState) (k : Nat) (current : Option Nat) : AState :=
+  match s.task? k with
+  | some t =>
+      match t.phase with
+      | .running _ _ =>
+          if current == some k then s
+          else { s with log := s.log ++ [({ time := s.now, key := k, kind := .cancelRun, due := t.job.due.inst } : AEvent)] }
+      | _ => s
+  | none => s
+
 /-- `delete_job`: pop + cancel; `false` = SchedulerError (not registered) -/
 def deleteJob (s : AState) (k : Nat) (current : Option Nat) : AState × Bool :=
   if s.reg.contains k then
-    let s1 := { s with reg := s.reg.erase k }
-    -- a suspended user coroutine that is cancelled: one `cancelRun` event, attempt not counted
-    let s2 := match s1.task? k with
-      | some t => match t.phase with
-          | .running _ _ => if current == some k then s1 else
-              { s1 with log := s1.log ++ [({ time := s1.now, key := k, kind := .cancelRun, due := t.job.due.inst } : AEvent)] }
-          | _ => s1
-      | none => s1
-    (s2.cancel k current, true)
+    ((({ s with reg := s.reg.erase k } : AState).logCancel k current).cancel k current, true)
   else (s, false)
 
 def selectKeys (s : AState) (q : List Nat) (any : Bool) : List Nat :=
@@ -175,7 +179,8 @@ def stepTask (s : AState) (k : Nat) : AState :=
       | .sleeping =>
           -- the sleep is over: start the coroutine
           let script := (t.runs[t.nrun]?).getD (t.runs.getLast?.getD {})
-          let s1 := { s with log := s.log ++ [({ time := s.now, key := k, kind := .start, due := t.job.due.inst } : AEvent)] }
+          let s0 := s.setTask k (fun t => { t with phase := .running script.acts script.raises })
+          let s1 := { s0 with log := s0.log ++ [({ time := s.now, key := k, kind := .start, due := t.job.due.inst } : AEvent)] }
           runActs (script.acts.length + 1) s1 k script.acts script.raises
       | .running rest raises => runActs (rest.length + 1) s k rest raises
       | .cancelled | .finished => s
@@ -202,5 +207,29 @@ def runUntil : Nat → AState → Int → AState
           match s.task? k with
           | none => s
           | some t => runUntil fuel (stepTask { s with now := if s.now ≤ t.wake then t.wake else s.now } k) limit
+
+/-- operations of the program that owns the loop -/
+inductive AOp where
+  | sched (sp : RawSpec) (runs : List RunScript)
+  | run (limit : Int) (fuel : Nat)
+  | del (k : Nat)
+  | delTags (q : List Nat) (any : Bool)
+  | get (q : List Nat) (any : Bool)
+  | jobs
+
+def astepOp (s : AState) (o : AOp) : AState × Res :=
+  match o with
+  | .sched sp runs => s.schedule sp runs
+  | .run limit fuel => (runUntil fuel s limit, .unit)
+  | .del k => let (s', ok) := s.deleteJob k none; (s', if ok then .unit else .err .schedulerError)
+  | .delTags q any => let (s', n) := s.deleteJobs q any none; (s', .count n)
+  | .get q any => (s, .set (sortKeys (s.selectKeys q any)))
+  | .jobs => (s, .set (sortKeys s.reg))
+
+/-- one operation followed by everything that is due at that very instant (quiescent point) -/
+def aop (fuel : Nat) (s : AState) (o : AOp) : AState :=
+  runUntil fuel (astepOp s o).1 (astepOp s o).1.now
+
+def arun (fuel : Nat) (s : AState) (ops : List AOp) : AState := ops.foldl (aop fuel) s
 
 end SV
